@@ -161,7 +161,7 @@ def copyGraph (fix7a : Bool) (p : GPat) (swaps : List Bool) : Except CommuteErr 
     if q.ctorOk then .ok q else .error .notImplemented
 
 /-- `GraphPattern.commute` -/
-def commute (fix7a : Bool) (p : GPat) (fix7b : Bool := false) : Except CommuteErr (List GPat) :=
+def commute (fix7a : Bool) (p : GPat) (fix7b : Bool := true) : Except CommuteErr (List GPat) :=
   (masks fix7b p.nodes).mapM (copyGraph fix7a p)
 
 end OV.C06
